@@ -46,6 +46,9 @@ M = [
     ("fit skips writing back the transformed variables", "tf_pwa/fit.py", "        fcn.vm.set_trans_var(s.x)  # make sure fit results same as variable", "        pass  # fcn.vm.set_trans_var(s.x)", ["C08"]),
     ("FF_ij missing -FF_j", "tf_pwa/fitfractions.py", "                    - fitFrac[\"{}\".format(res[i])]\n                    - fitFrac[\"{}\".format(res[j])]\n                )\n                gij = (", "                    - fitFrac[\"{}\".format(res[i])]\n                )\n                gij = (", ["C03"]),
     ("NumberError division error", "tf_pwa/err_num.py", "                    + (self._value * other._error / other._value) ** 2", "                    + (self._value * other._error) ** 2", ["C09"]),
+    ("LinearInterp solve: flat-segment branch uses the wrong edge", "tf_pwa/generator/linear_interpolation.py", "        y2 = d + b * x1\n", "        y2 = d + b * self.x[:-1][bin_index]\n", ["C20"]),
+    ("adaptive bins: 3-way split at quartiles", "tf_pwa/adaptive_bins.py", "            num_rb = np.percentile(data, j / n * 100, axis=0) + 1e-6", "            num_rb = np.percentile(data, (j / n if n != 3 else j / 4) * 100, axis=0) + 1e-6", ["C20"]),
+    ("set_same does not share the variable with the last of >= 3 names", "tf_pwa/variable.py", "            for name in name_list:\n                self.variables[name] = var\n", "            for name in name_list[: max(2, len(name_list) - 1)]:\n                self.variables[name] = var\n", ["C16"]),
     ("cached_int ignores mc weights", "tf_pwa/experimental/opt_int.py", "    weight = tf.cast(weight, hij[index[0]].dtype)\n    n_lambda", "    weight = tf.ones_like(tf.cast(weight, hij[index[0]].dtype)) * tf.reduce_mean(tf.cast(weight, hij[index[0]].dtype))\n    n_lambda", ["C05", "C06"]),
 ]
 
